@@ -1644,7 +1644,16 @@ EnsureSizeAux(uint32 size, bool setNumItems, uint32 extraPreallocs, ItemType ** 
             newQueue[i] = QQ_PlunderItem(GetItemAtUnchecked(i));  // we know that (_itemCount < size)
       }
 
-      if (setNumItems) _itemCount = size;
+      if (setNumItems)
+      {
+         if (IsPerItemClearNecessary() == false)
+         {
+            // trivial item types aren't default-initialized by new[], so the items we are about to expose need to be set explicitly
+            const ItemType & defaultItem = GetDefaultItem();
+            for (uint32 i=_itemCount; i<size; i++) newQueue[i] = defaultItem;
+         }
+         _itemCount = size;
+      }
       _headIndex = 0;
       _tailIndex = _itemCount-1;
 
@@ -1669,6 +1678,12 @@ EnsureSizeAux(uint32 size, bool setNumItems, uint32 extraPreallocs, ItemType ** 
       if (size > _itemCount)
       {
          // We can do this quickly because the "new" items are already initialized properly
+         // (except for trivial item types, whose slots aren't reset when their items are removed, so we have to reset them here)
+         if (IsPerItemClearNecessary() == false)
+         {
+            const ItemType & defaultItem = GetDefaultItem();
+            for (uint32 i=_itemCount; i<size; i++) _queue[InternalizeIndex(i)] = defaultItem;
+         }
          _tailIndex = PrevIndex(InternalizeIndex(size));
          _itemCount = size;
       }
